@@ -15,11 +15,11 @@ git -C "$WT" apply "$SEED/patch.diff" || { say "patch does not apply to worktree
 say "existing tests with change: exit $r1 (want 0)"; [ $r1 -ne 0 ] && grep -E "FAIL|panic" /tmp/seed-tests.log | head -5
 ( cd "$WT" && eval "$DEMO" ) > /tmp/seed-demo-mut.log 2>&1; r2=$?
 say "demo with change: exit $r2 (want non-zero)"
-git -C "$WT" checkout -q -- .
+git -C "$WT" checkout -q -- . ; git -C "$WT" clean -fdq
 [ -n "$(git -C /repo status --porcelain)" ] && { say "/repo is not clean, refusing"; exit 2; }
 git -C /repo apply "$SEED/patch.diff" || { say "patch does not apply to /repo"; exit 2; }
 ( cd "$ROOT" && ./check "$ID" "$TIER" ) > /tmp/seed-check.log 2>&1; r3=$?
-git -C /repo checkout -q -- .
+git -C /repo checkout -q -- . ; git -C /repo clean -fdq
 say "check $ID $TIER with change: exit $r3 (want 1)"
 grep -E "^(VIOLATION|violation class|KNOWN)" /tmp/seed-check.log | cut -c1-300 | head -6
 tail -1 /tmp/seed-check.log | cut -c1-200
